@@ -156,7 +156,7 @@ def choices_of(shim, D):
     return dr.tolist(), sd.tolist(), list(shim.perm)
 
 
-def run_real(D, ps, sm, m, shim, ps_2d=False):
+def run_real(D, ps, sm, m, shim, ps_2d=False, lenient=False):
     """Call the real generator under `shim`.  Returns dict(B | exc, contract, draws, sdraws, perm)."""
     mod = _mod()
     saved = mod.rnd
@@ -165,15 +165,22 @@ def run_real(D, ps, sm, m, shim, ps_2d=False):
     try:
         B = mod.poll_mads_2n(D, psa, sm, m)
         out = dict(B=np.asarray(B, dtype=float).tolist())
-    except ShimError:
-        raise
+    except ShimError as ex:
+        if not lenient:
+            raise
+        out = dict(exc="ShimError: " + str(ex)[:80], protocol=str(ex))
     except Exception as ex:
         out = dict(exc=type(ex).__name__ + ": " + str(ex)[:80])
     finally:
         mod.rnd = saved
     if "exc" not in out:
-        dr, sd, pm = choices_of(shim, D)
-        out.update(draws=dr, sdraws=sd, perm=pm)
+        try:
+            dr, sd, pm = choices_of(shim, D)
+            out.update(draws=dr, sdraws=sd, perm=pm)
+        except ShimError as ex:
+            if not lenient:
+                raise
+            out["protocol"] = str(ex)       # the call returned an array although it did not draw (entries, signs, permutation): still judged
     out["contract"] = shim.contract()
     return out
 
@@ -504,7 +511,9 @@ def monitor_poll_step(p):
     pre, cands, ev, u, mesh = p["pre"], p["cands"], p["evald"], p["u"], p["m"]
     if len(pre) != 2 * D:
         return "pre-shape", f"{len(pre)} candidate rows built from {2 * D} directions"
-    for k, (row, d) in enumerate(zip(pre, dirs)):
+    # SET-based (the property does not order the candidates): every candidate is incumbent + mesh * (a direction not used by another candidate).
+    # That candidate k belongs to direction k is the MODEL's reading (correspondence:poll_step), not the property's.
+    def off(row, d):
         for j in range(D):
             step = Fraction(mesh) * d[j]
             want = Fraction(u[j]) + step
@@ -512,8 +521,17 @@ def monitor_poll_step(p):
             if p.get("forced"):     # force_poll_mesh=True: the poll set is snapped to the search grid (half a search-mesh step at most)
                 tol += Fraction(p["sm"]) / 2
             if abs(Fraction(row[j]) - want) > tol:
-                return "off-mesh", (f"candidate {k} coordinate {j} = {row[j]!r} but incumbent + mesh*direction = "
-                                    f"{u[j]!r} + {mesh!r}*{d[j]} = {float(want)!r}")
+                return j, want
+        return None
+    unused = list(range(len(dirs)))
+    for k, row in enumerate(pre):
+        first = off(row, dirs[k])
+        hit = k if (first is None and k in unused) else next((i for i in unused if off(row, dirs[i]) is None), None)
+        if hit is None:
+            j, want = first if first is not None else (0, Fraction(u[0]))
+            return "off-mesh", (f"candidate {k} = {row!r} is not incumbent + mesh*direction for any direction not already used by another candidate "
+                                f"(e.g. coordinate {j} = {row[j]!r}, direction {k} gives {u[j]!r} + {mesh!r}*{dirs[k][j]} = {float(want)!r})")
+        unused.remove(hit)
     pre_t = [tuple(r) for r in pre]
     for c in cands:
         if tuple(c) not in pre_t:
